@@ -552,7 +552,7 @@ class StmtMixin:
         fr.loops.append(ctx)
         alive, decided = True, True
         try:
-            for _k in range(64):
+            for _k in range(400):
                 t = self.truth(self.val(s.test, fr, st))
                 if t is None:
                     decided = False
@@ -567,7 +567,7 @@ class StmtMixin:
         finally:
             fr.loops.pop()
         if not decided:
-            self.effect("unsupported", site, st, fr, what="while")
+            self.effect("unsupported", site, st, fr, what="while", body_calls=self._body_calls(s.body))
             self._havoc_assigned(s.body, fr, st, site)
             return True
         if alive and s.orelse:
@@ -579,6 +579,27 @@ class StmtMixin:
             st.assign_from(mst)
             alive = True
         return alive
+
+    PURE_CALL_NAMES = {"isinstance", "iter", "len", "next", "range", "enumerate", "zip", "list", "dict", "tuple", "set",
+                       "str", "int", "float", "bool", "min", "max", "sorted", "reversed", "abs", "sum", "any", "all",
+                       "repr", "type", "id", "hash", "callable", "getattr", "hasattr", "frozenset"}
+    PURE_METHOD_NAMES = {"items", "keys", "values", "append", "pop", "extend", "get", "setdefault", "update", "join",
+                         "split", "format", "startswith", "endswith", "copy", "index", "count", "insert", "remove",
+                         "clear", "add", "discard", "popitem", "strip", "lower", "upper", "replace"}
+
+    def _body_calls(self, body):
+        """'pure' if every call in a statement list that is summarised (not evaluated) is a builtin / container method
+        that touches nothing outside its operands; else the names of the other calls"""
+        other = []
+        for n in ast.walk(ast.Module(body=list(body), type_ignores=[])):
+            if isinstance(n, ast.Call):
+                f = n.func
+                if isinstance(f, ast.Name) and f.id in self.PURE_CALL_NAMES:
+                    continue
+                if isinstance(f, ast.Attribute) and f.attr in self.PURE_METHOD_NAMES:
+                    continue
+                other.append(ast.unparse(f)[:40])
+        return "pure" if not other else sorted(set(other))
 
     def _havoc_assigned(self, body, fr, st, site):
         for n in ast.walk(ast.Module(body=body, type_ignores=[])):
@@ -602,6 +623,33 @@ class StmtMixin:
                 fr.loops.pop()
             st.pc = tuple(x for x in st.pc if x[0] is not marker)
             return falls
+        if it.op == "Iter":
+            posn = st.heap.get((it.id, "$pos"))
+            if posn is not None and posn.op == "Const":
+                # an iterator resumes where it was left (by a break, or by next())
+                items_all = it.extra["items"]
+                loop_entry = len(st.pc)
+                ctx = {"break": [], "continue": []}
+                fr.loops.append(ctx)
+                alive = True
+                try:
+                    for k in range(posn.attr, len(items_all)):
+                        st.heap[(it.id, "$pos")] = self.const(k + 1)
+                        self.assign(s.target, items_all[k], fr, st)
+                        if not self._loop_body(s.body, fr, st, ctx):
+                            alive = False
+                            break
+                finally:
+                    fr.loops.pop()
+                if alive and s.orelse:
+                    alive = self.exec_block(s.orelse, fr, st)
+                if ctx["break"]:
+                    none = self.const(None)
+                    exits = [(s_, none) for s_ in ctx["break"]] + ([(st, none)] if alive else [])
+                    mst, _v = self.merge_exits(exits, loop_entry)
+                    st.assign_from(mst)
+                    alive = True
+                return alive
         if it.op == "Phi" and self._phi_known_items(it):
             # the sequence was chosen by a branch: run the loop once per alternative and join the states
             c = it.args[0]
